@@ -14,7 +14,7 @@
 (***************************************************************************)
 EXTENDS FixedCompose, TLC, Json
 
-CONSTANTS Depth, Alphabet     \* Alphabet: "full" | "small" | "classes" | "reph"
+CONSTANTS Depth, Alphabet     \* Alphabet: "full" | "small" | "classes" | "reph" | "rephclasses"
 
 VARIABLES o, s, h
 vars == <<o, s, h>>
@@ -29,8 +29,13 @@ SmallValues == {<<"ক">>, <<"া">>, <<"ি">>, <<"ু">>, <<HASANTA>>, <<CHAND
 \* class sweep: EVERY member of every class the rules name (all punctuation marks, consonants, vowels, signs, digits), short histories
 ClassValues == {<<c>> : c \in Punct \cup Consonants \cup IndepVowels \cup Kars \cup Digits}
                \cup {<<HASANTA>>, <<CHANDRA>>, <<AULEN>>, <<ZWNJ>>, <<ANUSVARA>>, <<VISARGA>>, REPH, ROFOLA, ZOFOLA, KKHA}
+\* C13 class sweep: every vowel sign (incl. the two-part ones), the final signs and the other characters the scan meets,
+\* shorter histories ending in the reph key
+RephClassValues == {<<"ক">>, <<"র">>, <<"ত">>, <<"আ">>, <<HASANTA>>, <<CHANDRA>>, <<ANUSVARA>>, <<VISARGA>>, <<ZWNJ>>, <<"(">>, <<"১">>,
+                    <<"ৎ">>, REPH, ROFOLA, ZOFOLA} \cup {<<k>> : k \in Kars}
 Values == IF Alphabet = "full" THEN FullValues ELSE IF Alphabet = "small" THEN SmallValues
-          ELSE IF Alphabet = "classes" THEN ClassValues ELSE RephValues
+          ELSE IF Alphabet = "classes" THEN ClassValues
+          ELSE IF Alphabet = "rephclasses" THEN RephClassValues ELSE RephValues
 
 OptSet == IF Alphabet \in {"full", "small", "classes"}
           THEN [vowel : BOOLEAN, chandra : BOOLEAN, kar : BOOLEAN, reph : BOOLEAN, karorder : {FALSE}]
@@ -52,8 +57,10 @@ BsStep ==
     /\ h' = Append(h, [op |-> "bs", val |-> <<>>, allow |-> {PropBackspace(s.buf)}, model |-> s'.buf,
                        norm |-> ~o.karorder])        \* (with old order on a backspace may discard a waiting sign instead: C14)
 
+\* (reph alphabets: only histories ending in the reph key are emitted, so the last step of a full-length history is that key)
+LastStepOK(v) == (Alphabet \in {"reph", "rephclasses"} /\ Len(h) = Depth - 1) => v = REPH
 Next == /\ Len(h) < Depth /\ ~s.crash
-        /\ ((\E v \in Values : KeyStep(v)) \/ BsStep)
+        /\ ((\E v \in Values : LastStepOK(v) /\ KeyStep(v)) \/ (LastStepOK(<<>>) /\ BsStep))
         /\ UNCHANGED o
 
 Spec == Init /\ [][Next]_vars
